@@ -789,6 +789,525 @@ fn sha_structured_lens() -> Vec<u64> {
     v
 }
 
+// MULTI-CALL WORKLOAD
+// ================================================================================================
+//
+// A hash procedure must return the reference digest on EVERY invocation, not only on the first one
+// in a fresh memory context: procedure locals are not zeroed between calls, so a procedure that
+// relies on "my locals are still zero" is right once and wrong afterwards. A multi-call program
+// runs 2..4 hash invocations one after the other (same procedure repeated, or different
+// procedures mixed), optionally after a "dirty" prologue (a 64-local procedure that fills all its
+// locals with random words, so that the locals region is non-zero on entry), and optionally some
+// of them through `call` (fresh context, for contrast). Each invocation takes its operands from
+// the advice stack (`adv_push`), its result is parked in memory (`mem_store`) and all results are
+// reloaded at the end, so EVERY digest is compared with the reference.
+
+/// memory where results are parked: step i, element j -> RESULT_BASE + 16 i + j
+const RESULT_BASE: u64 = 1 << 24;
+const DIRTY_LOCALS: usize = 64;
+const MULTI_MONITOR_EVERY: usize = 50;
+
+#[derive(Clone, Copy, Debug, PartialEq, Eq)]
+enum How {
+    /// `exec` in the root context
+    Exec,
+    /// `call` of a wrapper: fresh memory context
+    Call,
+    /// `call` of a wrapper that runs the dirty prologue inside the new context first
+    DirtyCall,
+}
+
+#[derive(Clone, Debug, PartialEq, Eq)]
+struct Shape {
+    /// run the dirty prologue in the root context before the first step
+    dirty: bool,
+    steps: Vec<(How, Proc)>,
+}
+
+impl Proc {
+    /// number of operand elements taken from the advice stack by `adv_push`
+    fn n_args(self) -> usize {
+        match self {
+            Proc::Blake1 | Proc::Sha1 => 8,
+            Proc::Blake2 | Proc::Sha2 | Proc::Keccak => 16,
+            Proc::KeccakToBi | Proc::KeccakFromBi => 2,
+            Proc::ShaMem | Proc::NatMem => 4,
+            Proc::NatEven => 16,
+            Proc::NatDigest => 12,
+        }
+    }
+    /// number of result elements left on top of the stack
+    fn n_results(self) -> usize {
+        match self {
+            Proc::Blake1 | Proc::Blake2 | Proc::Sha1 | Proc::Sha2 | Proc::Keccak | Proc::ShaMem => 8,
+            Proc::KeccakToBi | Proc::KeccakFromBi => 2,
+            Proc::NatMem | Proc::NatDigest => 4,
+            Proc::NatEven => 14,
+        }
+    }
+    /// rough CPU cost of one invocation in ms (only used to size the workload)
+    fn cost_ms(self) -> f64 {
+        match self {
+            Proc::Keccak => 70.0,
+            Proc::Sha2 | Proc::ShaMem => 12.0,
+            Proc::Sha1 => 6.0,
+            Proc::Blake1 | Proc::Blake2 => 3.0,
+            _ => 0.6,
+        }
+    }
+}
+
+impl Shape {
+    fn name(&self) -> String {
+        let mut v: Vec<String> = vec![];
+        if self.dirty {
+            v.push("dirty".into());
+        }
+        for (h, p) in &self.steps {
+            v.push(format!(
+                "{}:{}",
+                match h {
+                    How::Exec => "exec",
+                    How::Call => "call",
+                    How::DirtyCall => "dirtycall",
+                },
+                p.full()
+            ));
+        }
+        v.join(";")
+    }
+
+    fn parse(s: &str) -> Option<Shape> {
+        let mut sh = Shape { dirty: false, steps: vec![] };
+        for (i, tok) in s.split(';').enumerate() {
+            if tok == "dirty" && i == 0 {
+                sh.dirty = true;
+                continue;
+            }
+            let (h, p) = tok.split_once(':')?;
+            let how = match h {
+                "exec" => How::Exec,
+                "call" => How::Call,
+                "dirtycall" => How::DirtyCall,
+                _ => return None,
+            };
+            sh.steps.push((how, Proc::from_full(p)?));
+        }
+        if sh.steps.is_empty() || sh.steps.len() > 8 {
+            return None;
+        }
+        Some(sh)
+    }
+
+    /// the callee of a `call` sees (and returns) 16 elements: results + canary must fit
+    fn canary_len(&self) -> usize {
+        let r = self.steps.iter().filter(|(h, _)| *h != How::Exec).map(|(_, p)| p.n_results()).max().unwrap_or(0);
+        (16 - r).min(8)
+    }
+
+    fn uses_dirty(&self) -> bool {
+        self.dirty || self.steps.iter().any(|(h, _)| *h == How::DirtyCall)
+    }
+
+    fn cost_ms(&self) -> f64 {
+        self.steps.iter().map(|(_, p)| p.cost_ms()).sum::<f64>() + 0.5
+    }
+
+    fn src(&self) -> String {
+        let mut s = String::new();
+        let mut mods: Vec<&str> = self.steps.iter().map(|(_, p)| p.module()).collect();
+        mods.sort();
+        mods.dedup();
+        for m in mods {
+            s.push_str(&format!("use.std::crypto::hashes::{m}\n"));
+        }
+        s.push_str("use.std::sys\n");
+        if self.uses_dirty() {
+            s.push_str(&format!("proc.dirty.{DIRTY_LOCALS}\n"));
+            for i in 0..DIRTY_LOCALS {
+                s.push_str(&format!("    adv_push.4 loc_storew.{i} dropw\n"));
+            }
+            s.push_str("end\n");
+        }
+        let body = |p: Proc| -> String {
+            format!("    adv_push.{}\n{}    exec.{}::{}\n", p.n_args(), if p.uses_loader() { LOADER } else { "" }, p.module(), p.name())
+        };
+        for (i, (h, p)) in self.steps.iter().enumerate() {
+            if *h != How::Exec {
+                s.push_str(&format!("proc.w{i}\n"));
+                if *h == How::DirtyCall {
+                    s.push_str("    exec.dirty\n");
+                }
+                s.push_str(&body(*p));
+                s.push_str("    exec.sys::truncate_stack\nend\n");
+            }
+        }
+        s.push_str("begin\n");
+        if self.dirty {
+            s.push_str("    exec.dirty\n");
+        }
+        for (i, (h, p)) in self.steps.iter().enumerate() {
+            if *h == How::Exec {
+                s.push_str(&body(*p));
+            } else {
+                s.push_str(&format!("    call.w{i}\n"));
+            }
+            // park the result
+            s.push_str("   ");
+            for j in 0..p.n_results() {
+                s.push_str(&format!(" mem_store.{}", RESULT_BASE + 16 * i as u64 + j as u64));
+            }
+            s.push('\n');
+        }
+        // reload all results: final stack = R_0 ++ R_1 ++ … ++ canary
+        for (i, (_, p)) in self.steps.iter().enumerate().rev() {
+            s.push_str("   ");
+            for j in (0..p.n_results()).rev() {
+                s.push_str(&format!(" mem_load.{}", RESULT_BASE + 16 * i as u64 + j as u64));
+            }
+            s.push('\n');
+        }
+        s.push_str("end\n");
+        s
+    }
+}
+
+/// Splits the advice stack of a multi-call case back into one synthetic single-call case per step
+/// (stack = the step's operands, advice = the data its loader prologue copies to memory).
+fn decode_steps(shape: &Shape, advice: &[u64]) -> Option<Vec<Case>> {
+    let mut pos = 0usize;
+    let mut take = |n: usize| -> Option<&[u64]> {
+        let r = advice.get(pos..pos + n)?;
+        pos += n;
+        Some(r)
+    };
+    if shape.dirty {
+        take(4 * DIRTY_LOCALS)?;
+    }
+    let mut out = vec![];
+    for (h, p) in &shape.steps {
+        if *h == How::DirtyCall {
+            take(4 * DIRTY_LOCALS)?;
+        }
+        let mut st: Vec<u64> = take(p.n_args())?.to_vec();
+        st.reverse(); // the first element popped from the advice stack ends up deepest
+        let data: Vec<u64> = if p.uses_loader() { take(4 * (*st.first()? as usize).min(1 << 16))?.to_vec() } else { vec![] };
+        out.push(Case::new("").with_stack(&st).with_advice(&data));
+    }
+    Some(out)
+}
+
+/// operands of one step (top first) + loader data, produced by the single-call generators; memory
+/// ranges of different steps are disjoint (`slot`)
+fn step_inputs(p: Proc, slot: usize, prev: Option<&(Proc, Vec<u64>)>, rng: &mut Rng8) -> (Vec<u64>, Vec<u64>, &'static str) {
+    let base = 20_000 + 8_192 * slot as u64 + rng.gen_range(0..64u64);
+    match p {
+        Proc::Blake1 | Proc::Blake2 | Proc::Sha1 | Proc::Sha2 | Proc::Keccak => {
+            let nw = p.block_len() / 4;
+            let ns = n_structured(p.block_len());
+            let (j, cls) = match rng.gen_range(0..20) {
+                0..=2 => (0, "all-zero"),
+                3..=6 => (rng.gen_range(0..ns), "structured"),
+                7..=9 if prev.map(|x| x.0 == p).unwrap_or(false) => (usize::MAX, "same-as-previous"),
+                _ => (ns + 8 * rng.gen_range(0..1000usize), "random"),
+            };
+            if j == usize::MAX {
+                return (prev.unwrap().1.clone(), vec![], cls);
+            }
+            let (c, _, _) = block_case(p, j, rng);
+            (c.stack[..nw].to_vec(), vec![], cls)
+        }
+        Proc::KeccakToBi | Proc::KeccakFromBi => {
+            let (c, _, _) = bi_case(p, rng.gen_range(0..N_BI_STRUCT + 400), rng);
+            (c.stack[..2].to_vec(), vec![], "word")
+        }
+        Proc::NatDigest => {
+            let (c, _, _) = nat_digest_case(rng.gen_range(0..CONTENT_KINDS), rng);
+            (c.stack[..12].to_vec(), vec![], "state")
+        }
+        Proc::ShaMem => {
+            let len = match rng.gen_range(0..3) {
+                0 => 64 * rng.gen_range(0..3u64) + [0, 1, 54, 55, 56, 57, 62, 63][rng.gen_range(0..8)],
+                _ => rng.gen_range(0..200),
+            };
+            let (c, _, _) = sha_mem_case(len, 0, rng.gen_range(0..4), rng);
+            let mut st = c.stack[..4].to_vec();
+            st[1] = base;
+            st[2] = base;
+            (st, c.advice_stack, "memory")
+        }
+        Proc::NatMem => {
+            let n = rng.gen_range(1..=20u64);
+            let (c, _, _) = nat_mem_case(n, 0, rng.gen_range(0..CONTENT_KINDS), rng);
+            let mut st = c.stack[..4].to_vec();
+            st[1] = base;
+            st[2] = base;
+            st[3] = base + n;
+            (st, c.advice_stack, "memory")
+        }
+        Proc::NatEven => {
+            let n = 2 * rng.gen_range(0..=10u64);
+            let (c, _, _) = nat_even_case(n, 0, rng.gen_range(0..CONTENT_KINDS), rng.gen_range(0..3), rng);
+            let mut st = c.stack[..16].to_vec();
+            st[1] = base;
+            st[14] = base;
+            st[15] = base + n;
+            (st, c.advice_stack, "memory")
+        }
+    }
+}
+
+fn multi_case(shape: &Shape, rng: &mut Rng8) -> (Case, String) {
+    let mut adv: Vec<u64> = vec![];
+    let mut classes: Vec<&str> = vec![];
+    let dirty_words = |adv: &mut Vec<u64>, rng: &mut Rng8| {
+        for _ in 0..4 * DIRTY_LOCALS {
+            // never zero: every local element is visibly dirty
+            adv.push(if rng.gen_bool(0.5) { rng.gen_range(1..=M32) } else { rng.gen_range(1..P) });
+        }
+    };
+    if shape.dirty {
+        dirty_words(&mut adv, rng);
+    }
+    let mut prev: Option<(Proc, Vec<u64>)> = None;
+    for (slot, (h, p)) in shape.steps.iter().enumerate() {
+        if *h == How::DirtyCall {
+            dirty_words(&mut adv, rng);
+        }
+        let (st, data, cls) = step_inputs(*p, slot, prev.as_ref(), rng);
+        adv.extend(st.iter().rev());
+        adv.extend(data.iter());
+        classes.push(cls);
+        prev = Some((*p, st));
+    }
+    let mut c = Case::new(shape.src()).with_stack(&canary(rng, shape.canary_len())).with_advice(&adv);
+    c.stdlib = true;
+    (c, classes.join(","))
+}
+
+fn multi_witness(shape: &Shape, case: &Case) -> serde_json::Value {
+    json!({"kind": "c17-multi", "shape": shape.name(), "case": case.to_json()})
+}
+
+fn evaluate_multi(shape: &Shape, prog: &Program, case: &Case, class: &str, monitor: bool, rng: &mut Rng8, rep: &mut Report) {
+    let sname = shape.name();
+    let Some(steps) = decode_steps(shape, &case.advice_stack) else {
+        rep.inconclusive(format!("multi-call:malformed-advice:{sname}"));
+        return;
+    };
+    // expected result of every step, from the single-call model
+    let mut tops: Vec<Vec<u64>> = vec![];
+    for ((_, p), sc) in shape.steps.iter().zip(steps.iter()) {
+        match expectation(*p, sc) {
+            Expect::Out { top, consumed } if consumed == sc.stack.len() && top.len() == p.n_results() => tops.push(top),
+            _ => {
+                rep.inconclusive(format!("multi-call:step-outside-domain:{}", p.full()));
+                return;
+            }
+        }
+    }
+    let out = case.execute(prog);
+    rep.count("multi_shape", &sname);
+    let oc = match &out {
+        ExecOutcome::Ok(_) => "ok".to_string(),
+        ExecOutcome::Err(e) => format!("err:{}", err_kind(e)),
+        ExecOutcome::Panic(_) => "panic".to_string(),
+    };
+    rep.count("multi_outcome", &oc);
+    let mut root_used = shape.dirty;
+    let mut seen_exec: Vec<Proc> = vec![];
+    for (i, (h, p)) in shape.steps.iter().enumerate() {
+        let full = p.full();
+        rep.count("multi_call", &full);
+        match h {
+            How::Exec => {
+                if root_used {
+                    rep.count("multi_later_same_ctx", &full);
+                }
+                if seen_exec.contains(p) {
+                    rep.count("multi_repeat_same_proc", &full);
+                }
+                if shape.dirty && i == 0 {
+                    rep.count("multi_dirty_entry", &full);
+                }
+                root_used = true;
+                seen_exec.push(*p);
+            }
+            How::Call => rep.count("multi_fresh_ctx", &full),
+            How::DirtyCall => {
+                rep.count("multi_fresh_ctx", &full);
+                rep.count("multi_dirty_entry", &full);
+            }
+        }
+    }
+    rep.eval(&format!("multi|{sname}|{class}"));
+    let same_proc = shape.steps.iter().all(|(_, p)| *p == shape.steps[0].1);
+    match out {
+        ExecOutcome::Panic(pi) => rep.violation(
+            format!("multi-call/panic/{}", pi.site()),
+            format!("multi-call program [{sname}] panicked ({}) at {}", pi.message, pi.location),
+            multi_witness(shape, case),
+        ),
+        ExecOutcome::Err(e) => rep.violation(
+            if same_proc { format!("{}/unexpected-failure/multi-call", shape.steps[0].1.full()) } else { "multi-call/unexpected-failure".to_string() },
+            format!("multi-call program [{sname}] failed with {e}; every step has operands inside its documented domain (classes {class})"),
+            multi_witness(shape, case),
+        ),
+        ExecOutcome::Ok(mut trace) => {
+            let got: Vec<u64> = trace.stack_outputs().stack().to_vec();
+            let mut want: Vec<u64> = tops.concat();
+            let n_res = want.len();
+            want.extend_from_slice(&case.stack);
+            if trimmed(&got) == trimmed(&want) {
+                if monitor {
+                    rep.count("side_monitor", "multi-call");
+                    crate::props::c03::monitor_trace(case, &mut trace, rng, 1, 0, rep);
+                }
+                return;
+            }
+            // attribute to the first step whose result differs
+            let mut off = 0usize;
+            let mut bad: Vec<String> = vec![];
+            let mut first: Option<(usize, Proc, Vec<u64>, Vec<u64>)> = None;
+            for (i, ((h, p), top)) in shape.steps.iter().zip(tops.iter()).enumerate() {
+                let g: Vec<u64> = got.iter().skip(off).take(top.len()).copied().collect();
+                if g != *top {
+                    bad.push(format!("step {i} ({h:?} {})", p.full()));
+                    if first.is_none() {
+                        first = Some((i, *p, top.clone(), g));
+                    }
+                }
+                off += top.len();
+            }
+            match first {
+                Some((i, p, top, g)) => rep.violation(
+                    format!("{}/digest-mismatch/multi-call", p.full()),
+                    format!(
+                        "multi-call program [{sname}]: result of step {i} ({}) differs from the reference: expected {:?}, got {:?}; wrong steps: {}; input classes {class}",
+                        p.full(),
+                        top,
+                        g,
+                        bad.join(", ")
+                    ),
+                    multi_witness(shape, case),
+                ),
+                None => rep.violation(
+                    "multi-call/canary-clobbered",
+                    format!("multi-call program [{sname}]: all results correct but the stack below them changed: expected {:?}, got {:?}", trimmed(&case.stack), trimmed(&got[n_res.min(got.len())..])),
+                    multi_witness(shape, case),
+                ),
+            }
+        }
+    }
+}
+
+/// the fixed multi-call shapes (every procedure: x2, x3, dirty+x2, exec/call/exec, dirty + call +
+/// dirtycall; mixed sequences) plus `n_random` seed-dependent mixed shapes
+fn multi_shapes(rng: &mut Rng8, n_random: usize) -> Vec<Shape> {
+    use How::*;
+    let mut v = vec![];
+    for p in PROCS {
+        v.push(Shape { dirty: false, steps: vec![(Exec, p), (Exec, p)] });
+        v.push(Shape { dirty: false, steps: vec![(Exec, p), (Exec, p), (Exec, p)] });
+        v.push(Shape { dirty: true, steps: vec![(Exec, p), (Exec, p)] });
+        v.push(Shape { dirty: false, steps: vec![(Exec, p), (Call, p), (Exec, p)] });
+        v.push(Shape { dirty: true, steps: vec![(Call, p), (DirtyCall, p)] });
+    }
+    let mixed: Vec<Vec<Proc>> = vec![
+        vec![Proc::Keccak, Proc::Sha2, Proc::Keccak],
+        vec![Proc::Sha1, Proc::Keccak, Proc::Blake1, Proc::Keccak],
+        vec![Proc::Blake2, Proc::ShaMem, Proc::Blake2, Proc::NatMem],
+        vec![Proc::NatMem, Proc::ShaMem, Proc::NatEven, Proc::NatDigest, Proc::ShaMem],
+        vec![Proc::Sha2, Proc::Sha1, Proc::ShaMem, Proc::Sha2],
+        vec![Proc::Blake1, Proc::Blake2, Proc::Blake1],
+        vec![Proc::KeccakToBi, Proc::Keccak, Proc::KeccakFromBi, Proc::Keccak],
+        vec![Proc::ShaMem, Proc::Keccak, Proc::ShaMem],
+    ];
+    for (i, m) in mixed.into_iter().enumerate() {
+        v.push(Shape { dirty: i % 2 == 1, steps: m.into_iter().map(|p| (Exec, p)).collect() });
+    }
+    for _ in 0..n_random {
+        let n = rng.gen_range(2..=4);
+        let mut steps = vec![];
+        for _ in 0..n {
+            // keccak is the expensive one: at most twice per random shape
+            let mut p = PROCS[rng.gen_range(0..PROCS.len())];
+            if p == Proc::Keccak && steps.iter().filter(|(_, q)| *q == Proc::Keccak).count() >= 2 {
+                p = Proc::Blake2;
+            }
+            let h = match rng.gen_range(0..6) {
+                0 => Call,
+                1 => DirtyCall,
+                _ => Exec,
+            };
+            steps.push((h, p));
+        }
+        let s = Shape { dirty: rng.gen_bool(0.5), steps };
+        if !v.contains(&s) {
+            v.push(s);
+        }
+    }
+    v
+}
+
+fn run_multi(cfg: &Cfg) -> Report {
+    let mut head = Report::new();
+    let mut srng = rng_for(cfg.seed, "C17", 1u64 << 47);
+    let shapes = multi_shapes(&mut srng, 10);
+    // assemble every shape once (in parallel)
+    let progs: Vec<Result<Box<Program>, String>> = par_map(shapes.len(), |i| {
+        let mut c = Case::new(shapes[i].src());
+        c.stdlib = true;
+        match c.assemble() {
+            AsmOutcome::Ok(p) => Ok(p),
+            AsmOutcome::Err(e) => Err(e),
+            AsmOutcome::Panic(p) => Err(format!("panic {}", p.site())),
+        }
+    });
+    let mut items: Vec<(usize, usize)> = vec![];
+    for (si, (sh, pr)) in shapes.iter().zip(progs.iter()).enumerate() {
+        if let Err(e) = pr {
+            head.inconclusive(format!("multi-call:cannot-assemble:[{}]:{}", sh.name(), crate::report::truncate(e, 80)));
+            continue;
+        }
+        // CPU budget per shape: quick 4 s, thorough 160 s
+        let c = sh.cost_ms();
+        let n = cfg.n(((4_000.0 / c) as usize).clamp(16, 200), ((160_000.0 / c) as usize).clamp(400, 8_000));
+        for j in 0..n {
+            items.push((si, j));
+        }
+    }
+    // interleave expensive and cheap shapes across shards
+    let shards = 256usize;
+    let reports = par_map(shards, |sh| {
+        let mut rep = Report::new();
+        let mut mon_rng = rng_for(cfg.seed, "C17", (1u64 << 41) + sh as u64);
+        for (g, &(si, j)) in items.iter().enumerate() {
+            if g % shards != sh {
+                continue;
+            }
+            let Ok(prog) = &progs[si] else { continue };
+            let mut rng = rng_for(cfg.seed, "C17", (1u64 << 48) | ((si as u64) << 24) | j as u64);
+            let (case, class) = multi_case(&shapes[si], &mut rng);
+            evaluate_multi(&shapes[si], prog, &case, &class, j % MULTI_MONITOR_EVERY == MULTI_MONITOR_EVERY / 2, &mut mon_rng, &mut rep);
+        }
+        rep
+    });
+    let mut rep = merge_all(reports);
+    rep.merge(head);
+    let (later, fresh, dirty) = if cfg.tier == Tier::Quick { (40, 10, 10) } else { (800, 200, 200) };
+    for p in PROCS {
+        let full = p.full();
+        rep.floor(rep.get_count("multi_later_same_ctx", &full) >= later, &format!("multi-call:{full}-as-later-call-in-same-context-{later}x"));
+        rep.floor(rep.get_count("multi_repeat_same_proc", &full) >= later, &format!("multi-call:{full}-repeated-in-same-context-{later}x"));
+        rep.floor(rep.get_count("multi_fresh_ctx", &full) >= fresh, &format!("multi-call:{full}-via-call-{fresh}x"));
+        rep.floor(rep.get_count("multi_dirty_entry", &full) >= dirty, &format!("multi-call:{full}-entered-with-dirty-locals-{dirty}x"));
+    }
+    rep.floor(rep.get_count("multi_outcome", "ok") >= 500, "multi-call:500-successful-programs");
+    rep.floor(rep.get_count("side_monitor", "multi-call") >= 5, "multi-call:side-monitor-5x");
+    rep
+}
+
 // DRIVER
 // ================================================================================================
 
@@ -955,6 +1474,7 @@ pub fn run(cfg: &Cfg) -> Report {
     });
     let mut rep = merge_all(reports);
     rep.merge(head);
+    rep.merge(run_multi(cfg));
 
     // floors
     let min = if cfg.tier == Tier::Quick { 300 } else { 3000 };
@@ -996,6 +1516,24 @@ pub fn run(cfg: &Cfg) -> Report {
 
 pub fn replay(v: &serde_json::Value, rep: &mut Report) {
     let Some(case) = v.get("case").and_then(Case::from_json) else { return };
+    if let Some(sname) = v.get("shape").and_then(|x| x.as_str()) {
+        let Some(shape) = Shape::parse(sname) else {
+            rep.inconclusive("replay:unknown-shape");
+            return;
+        };
+        let mut c = Case::new(shape.src());
+        c.stdlib = true;
+        let prog = match c.assemble() {
+            AsmOutcome::Ok(p) => p,
+            _ => {
+                rep.inconclusive("replay:cannot-assemble-shape");
+                return;
+            }
+        };
+        let mut rng = rng_for(0, "C17-replay", 0);
+        evaluate_multi(&shape, &prog, &case, "replay", true, &mut rng, rep);
+        return;
+    }
     let Some(p) = v.get("proc").and_then(|x| x.as_str()).and_then(Proc::from_full) else {
         // a side-monitor (C03) witness: plain case
         let mut rng = rng_for(0, "C17-replay", 0);
